@@ -160,6 +160,11 @@ def materialise(bench, k, m, c, rng):
       arr.flat[pos] = val
   if labels is not None:
     labels = np.array(labels, dtype=float) if c['lab'] == 'half' else np.array(labels)
+    if c['lab'] == 'str' and len(labels):
+      # a non-numeric entry among the pair labels (the array then holds strings)
+      labels = np.array([str(int(v)) for v in labels], dtype=object)
+      labels[0] = 'abc'
+      labels = labels.astype(str) if rng.random() < 0.5 else labels
     if len(labels):
       if c['lab'] == 'zero':
         labels[0] = 0
